@@ -12,7 +12,7 @@ TECHNIQUE = "fault injection enumerated over call positions and fault kinds on H
 RULE = ("For each generated scenario (all noise modes, small budgets) a clean reference run gives the number of target calls n and "
         "the phase of every call (x0, noise test, initial design, search k, poll k, final re-sampling). Faults are then injected "
         "at call positions k x fault kinds: the target raises {InjectedFault, ValueError, KeyError, ZeroDivisionError, "
-        "LinAlgError, and message-less InjectedFault()/AssertionError()} or returns {nan, +inf, -inf, complex, 2-vector, 2-list, None} (specified noise also: bare scalar, 3-tuple, "
+        "LinAlgError, a two-argument StructuredError, and message-less InjectedFault()/AssertionError()} or returns {nan, +inf, -inf, complex, 2-vector, 2-list, None} (specified noise also: bare scalar, 3-tuple, "
         "(v,0), (v,-1), (v,nan), (v,inf), (nan,1)). Quick tier: first/last/middle position of every phase; thorough tier: "
         "every k. Oracle: the same exception type (ValueError for invalid values) escapes optimize(), the target is not called "
         "again, func_count = k-1, the calls before k are identical to the reference run and the log holds only finite values "
@@ -36,7 +36,15 @@ class StrictInit(Exception):
         self.step = step
 
 
-RAISE = {"InjectedFault": InjectedFault, "ValueError": ValueError, "KeyError": KeyError, "ZeroDivisionError": ZeroDivisionError,
+class StructuredError(Exception):
+    """A user exception with two required constructor arguments (like subprocess.CalledProcessError)."""
+
+    def __init__(self, code, detail):
+        super().__init__(code, detail)
+        self.code, self.detail = code, detail
+
+
+RAISE = {"StructuredError(2)": StructuredError, "InjectedFault": InjectedFault, "ValueError": ValueError, "KeyError": KeyError, "ZeroDivisionError": ZeroDivisionError,
          "LinAlgError": np.linalg.LinAlgError, "InjectedFault()": InjectedFault, "AssertionError()": AssertionError, "StrictInit": StrictInit}
 BAD_VALUES = {"nan": float("nan"), "+inf": float("inf"), "-inf": float("-inf"), "complex": complex(1.0, 2.0),
               "complex-array1": np.array([1.0 + 2.0j]), "nan-array1": np.array([float("nan")]),
@@ -61,6 +69,8 @@ def kinds_for(mode):
 def make_fault(kind):
     t, name = kind
     if t == "raise":
+        if name.endswith("(2)"):
+            return ("raise", RAISE[name], "twoargs")
         return ("raise", RAISE[name], "noargs") if name.endswith("()") else ("raise", RAISE[name])
     if t == "value":
         return ("return", BAD_VALUES[name])
